@@ -576,6 +576,10 @@ def ins_kwargs(cfg, seed, time_trigger=None):
         kw.update(checkpoint_on_iteration=False, checkpoint_interval=time_trigger)
     if cfg.get("neural"):
         kw.update(flow_config=dict(n_blocks=2, n_neurons=8, n_layers=1), training_config=dict(max_epochs=10, patience=5, batch_size=100))
+        if cfg.get("lars"):
+            # resampled (LARS) base distribution: its normalisation buffer is re-estimated by FlowModel.finalise() after training
+            # and must be in the saved weights (seeded change C12-d: weights saved before finalise)
+            kw["flow_config"].update(distribution="lars")
     return kw
 
 
@@ -589,7 +593,8 @@ def ins_configs():
         out.append(c)
     n1 = dict(CONFIGS[1]); n1.update(neural=True, nlive=60, levels=3, name="neural:logq=0:iid=1:logit", save_log_q=False)
     n2 = dict(CONFIGS[0]); n2.update(neural=True, nlive=60, levels=3, name="neural:logq=1:iid=1:none", save_log_q=True)
-    return out, [n1, n2]
+    n3 = dict(CONFIGS[1]); n3.update(neural=True, lars=True, nlive=60, levels=3, name="neural-lars:logq=0:iid=1:logit", save_log_q=False)
+    return out, [n1, n2, n3]
 
 
 class NoFlows:
@@ -1449,7 +1454,7 @@ def correspond(ctx):
                     c["time_trigger"] = 2
                     c["name"] += ":time"
                 roundtrip_run(ctx, "ins", c, base + 40 + 7 * ci + s)
-        for ci, cfg in enumerate(neural[: ctx.scale(1, 2)]):
+        for ci, cfg in enumerate([neural[0], neural[2]] if ctx.quick else neural):
             roundtrip_run(ctx, "ins", cfg, base + 90 + ci)
         # ---- chains
         nk = ctx.scale(3, 5)
